@@ -386,3 +386,346 @@ Proof.
 Qed.
 
 End Alpha.
+
+(* ------------------------------------------------------------------ *)
+(* the loop `while index < len(section_list)` of the *_detection        *)
+(* functions, against Detect.drive, for every fuel                      *)
+(* ------------------------------------------------------------------ *)
+Section DriverSim.
+Variables (F Acc St R L' : Type).
+Variable detect : str -> dres F.          (* the model of the detect_* function, as the loop reads its result *)
+Variable reex : bool.                     (* `continue` after a split *)
+Variable add : Acc -> F -> Acc.           (* what is appended to the found list(s) *)
+(* the loop-carried variables as (section_list, found lists, index) *)
+Variable get : St -> list section * Acc * Z.
+Variable cond : St -> bool.
+Variable body : St -> ctl R St St.
+Hypothesis cond_spec : forall st sl acc i, get st = (sl, acc, i) -> cond st = (i <? llen sl).
+(* one iteration with index = the position of x *)
+Definition goes_on (st : St) (v : list section * Acc * Z) : Prop :=
+  exists st', (body st = Next st' \/ body st = Continue st') /\ get st' = v.
+Hypothesis body_spec : forall st done x rest acc, get st = (done ++ x :: rest, acc, llen done) ->
+  match snd x with
+  | Some _ => goes_on st (done ++ x :: rest, acc, llen done + 1)
+  | None =>
+      match detect (fst x) with
+      | DErr => body st = Raise
+      | DNo => goes_on st (done ++ x :: rest, acc, llen done + 1)
+      | DYes p f => goes_on st (done ++ p ++ rest, add acc f, if reex then llen done else llen done + 1)
+      end
+  end.
+
+Lemma while_done fuel st : cond st = false -> while_ (L' := L') fuel st cond body = Next st.
+Proof. intros H. destruct fuel; cbn [while_]; now rewrite H. Qed.
+
+Lemma while_step fuel st v :
+  cond st = true -> goes_on st v ->
+  exists st', get st' = v /\ while_ (L' := L') (S fuel) st cond body = while_ (L' := L') fuel st' cond body.
+Proof.
+  intros Hc (st' & Hb & Hg). exists st'. split; [assumption|]. cbn [while_]. rewrite Hc.
+  destruct Hb as [-> | ->]; reflexivity.
+Qed.
+
+Lemma driver_sim : forall fuel todo done st acc, get st = (done ++ todo, acc, llen done) ->
+  match drive detect reex fuel todo with
+  | None => while_ (L' := L') fuel st cond body = Raise
+  | Some (out, fs) =>
+      exists st' i, while_ (L' := L') fuel st cond body = Next st' /\ get st' = (done ++ out, fold_left add fs acc, i)
+  end.
+Proof.
+  assert (Hnil : forall fuel done st acc, get st = (done ++ [], acc, llen done) ->
+            exists st' i, while_ (L' := L') fuel st cond body = Next st' /\ get st' = (done ++ [], acc, i)).
+  { intros fuel done st acc Hg. exists st, (llen done). split; [|assumption]. apply while_done.
+    rewrite (cond_spec _ _ _ _ Hg), index_in_range. reflexivity. }
+  induction fuel as [|f IH]; intros todo done st acc Hg.
+  - destruct todo as [|[s [l|]] rest]; cbn [drive]; [now apply Hnil| |];
+      cbn [while_]; rewrite (cond_spec _ _ _ _ Hg), index_in_range; reflexivity.
+  - destruct todo as [|x rest]; [cbn [drive]; now apply Hnil|].
+    assert (Hc : cond st = true) by (rewrite (cond_spec _ _ _ _ Hg), index_in_range; reflexivity).
+    pose proof (body_spec _ _ _ _ _ Hg) as Hb.
+    assert (Hadv : forall y rest' acc', goes_on st (done ++ y :: rest', acc', llen done + 1) ->
+              match drive detect reex f rest' with
+              | None => while_ (L' := L') (S f) st cond body = Raise
+              | Some (out, fs) => exists st' i, while_ (L' := L') (S f) st cond body = Next st' /\
+                                                get st' = (done ++ y :: out, fold_left add fs acc', i)
+              end).
+    { intros y rest' acc' Hgo. destruct (while_step f _ _ Hc Hgo) as (st1 & Hg1 & ->).
+      assert (Hg1' : get st1 = ((done ++ [y]) ++ rest', acc', llen (done ++ [y]))).
+      { rewrite Hg1, <- app_assoc, llen_app. reflexivity. }
+      pose proof (IH rest' (done ++ [y]) st1 acc' Hg1') as H.
+      destruct (drive detect reex f rest') as [[out fs]|]; [|assumption].
+      destruct H as (st' & i & -> & Hg'). exists st', i. split; [reflexivity|]. now rewrite Hg', <- app_assoc. }
+    destruct x as [s [l|]]; cbn [snd fst] in Hb; cbn [drive].
+    + specialize (Hadv (s, Some l) rest acc Hb). destruct (drive detect reex f rest) as [[out fs]|]; assumption.
+    + destruct (detect s) as [| |p found].
+      * cbn [while_]. now rewrite Hc, Hb.
+      * specialize (Hadv (s, None) rest acc Hb). destruct (drive detect reex f rest) as [[out fs]|]; assumption.
+      * destruct reex.
+        -- destruct (while_step f _ _ Hc Hb) as (st1 & Hg1 & ->).
+           pose proof (IH (p ++ rest) done st1 (add acc found) Hg1) as H.
+           destruct (drive detect true f (p ++ rest)) as [[out fs]|]; assumption.
+        -- destruct (p ++ rest) as [|y rest'] eqn:E.
+           ++ destruct (while_step f _ _ Hc Hb) as (st1 & Hg1 & ->).
+              exists st1, (llen done + 1). split; [|now rewrite Hg1]. apply while_done.
+              rewrite (cond_spec _ _ _ _ Hg1), app_nil_r. apply Z.ltb_ge. lia.
+           ++ specialize (Hadv y rest' (add acc found) Hb).
+              destruct (drive detect false f rest') as [[out fs]|]; assumption.
+Qed.
+
+End DriverSim.
+
+Lemma fold_append {X : Type} (fs : list X) : forall acc, fold_left (fun a f => a ++ [f]) fs acc = acc ++ fs.
+Proof. induction fs as [|f fs IH]; intros acc; cbn [fold_left]; [now rewrite app_nil_r|]. now rewrite IH, <- app_assoc. Qed.
+
+Lemma fold_extend2 {X Y : Type} (fs : list (list X * list Y)) : forall a b,
+  fold_left (fun acc f => (fst acc ++ fst f, snd acc ++ snd f)) fs (a, b) = (a ++ flat_map fst fs, b ++ flat_map snd fs).
+Proof.
+  induction fs as [|f fs IH]; intros a b; cbn [fold_left flat_map]; [now rewrite !app_nil_r|].
+  rewrite IH. cbn [fst snd]. now rewrite <- !app_assoc.
+Qed.
+
+(* the state of a *_detection loop is (section_list, found list, index) *)
+Ltac driver_body_start :=
+  let sl := fresh "sl" in let fl := fresh "fl" in let idx := fresh "idx" in let Hg := fresh "Hg" in
+  intros [[sl fl] idx] done x rest acc Hg; cbn in Hg; injection Hg as -> -> ->;
+  unfold goes_on; cbv beta iota zeta; unfold sub_l; rewrite !lget_mid;
+  destruct x as [s [l|]]; cbn [snd fst is_none bind].
+Ltac goes_on_now := eexists; split; [left; reflexivity|reflexivity] || (eexists; split; [right; reflexivity|reflexivity]).
+
+Section DigitDriver.
+Variable isdigit : N -> bool.
+
+Theorem py_digit_detection_eq (sl : list section) :
+  py_digit_detection isdigit sl = drive_all (detect_digits isdigit) false sl.
+Proof.
+  unfold py_digit_detection, drive_all. cbv zeta.
+  match goal with |- context [while_ _ _ ?c ?b] => set (wcond := c); set (wbody := b) end.
+  pose proof (driver_sim str (list str) _ _ Empty_set (detect_digits isdigit) false
+                (fun a f => a ++ [f]) (fun st => st) wcond wbody) as H.
+  match type of H with ?A -> ?B -> _ => assert (Hc : A); [|assert (Hb : B)] end.
+  { unfold wcond. intros [[sl0 fl] idx] ? ? ? E. injection E as -> -> ->. reflexivity. }
+  { unfold wbody. driver_body_start; [goes_on_now|].
+    rewrite py_detect_digits_eq. cbn [fst]. destruct (detect_digits isdigit s) as [| |p f]; cbn [py_of_dres call].
+    - reflexivity.
+    - goes_on_now.
+    - cbn [is_none negb call pv_list]. rewrite ldel_mid. cbn [call]. rewrite lins_mid. goes_on_now. }
+  specialize (H Hc Hb (drive_fuel sl) sl [] (sl, [], 0) [] eq_refl).
+  destruct (drive (detect_digits isdigit) false (drive_fuel sl) sl) as [[out fs]|].
+  - destruct H as (st' & i & -> & Hg). cbv beta in Hg. subst st'. cbn [bind run app]. now rewrite fold_append.
+  - now rewrite H.
+Qed.
+
+End DigitDriver.
+
+(* year_detection and context_sensitive_detection: `if found:` and `continue` after a split *)
+Ltac truthy_driver py_eq py_fun :=
+  match goal with |- context [py_fun ?isd (?s, None)] =>
+    let E := fresh "E" in pose proof (py_eq isd (s, None)) as E; cbn [fst] in E; rewrite <- E; clear E;
+    destruct (py_fun isd (s, None)) as [[pvv [[|c f]|]]|]; cbn [dres_if_truthy nonempty call truthy];
+    [ goes_on_now
+    | rewrite ldel_mid; destruct pvv; cbn [call pv_list bind]; [reflexivity|]; rewrite lins_mid; goes_on_now
+    | goes_on_now
+    | reflexivity ]
+  end.
+
+Section YearDriver.
+Variable isdigit : N -> bool.
+
+Theorem py_year_detection_eq (sl : list section) :
+  py_year_detection isdigit sl = drive_all (detect_year isdigit year_prefixes) true sl.
+Proof.
+  unfold py_year_detection, drive_all. cbv zeta.
+  match goal with |- context [while_ _ _ ?c ?b] => set (wcond := c); set (wbody := b) end.
+  pose proof (driver_sim str (list str) _ _ Empty_set (detect_year isdigit year_prefixes) true
+                (fun a f => a ++ [f]) (fun st => st) wcond wbody) as H.
+  match type of H with ?A -> ?B -> _ => assert (Hc : A); [|assert (Hb : B)] end.
+  { unfold wcond. intros [[sl0 fl] idx] ? ? ? E. injection E as -> -> ->. reflexivity. }
+  { unfold wbody. driver_body_start; [goes_on_now|]. truthy_driver py_detect_year_eq py_detect_year. }
+  specialize (H Hc Hb (drive_fuel sl) sl [] (sl, [], 0) [] eq_refl).
+  destruct (drive (detect_year isdigit year_prefixes) true (drive_fuel sl) sl) as [[out fs]|].
+  - destruct H as (st' & i & -> & Hg). cbv beta in Hg. subst st'. cbn [bind run app]. now rewrite fold_append.
+  - now rewrite H.
+Qed.
+
+End YearDriver.
+
+Section ContextDriver.
+Variable isdigit : N -> bool.
+
+Theorem py_context_sensitive_detection_eq (sl : list section) :
+  py_context_sensitive_detection isdigit sl = drive_all (detect_context isdigit context_strings) true sl.
+Proof.
+  unfold py_context_sensitive_detection, drive_all. cbv zeta.
+  match goal with |- context [while_ _ _ ?c ?b] => set (wcond := c); set (wbody := b) end.
+  pose proof (driver_sim str (list str) _ _ Empty_set (detect_context isdigit context_strings) true
+                (fun a f => a ++ [f]) (fun st => st) wcond wbody) as H.
+  match type of H with ?A -> ?B -> _ => assert (Hc : A); [|assert (Hb : B)] end.
+  { unfold wcond. intros [[sl0 fl] idx] ? ? ? E. injection E as -> -> ->. reflexivity. }
+  { unfold wbody. driver_body_start; [goes_on_now|].
+    truthy_driver py_detect_context_sensitive_eq py_detect_context_sensitive. }
+  specialize (H Hc Hb (drive_fuel sl) sl [] (sl, [], 0) [] eq_refl).
+  destruct (drive (detect_context isdigit context_strings) true (drive_fuel sl) sl) as [[out fs]|].
+  - destruct H as (st' & i & -> & Hg). cbv beta in Hg. subst st'. cbn [bind run app]. now rewrite fold_append.
+  - now rewrite H.
+Qed.
+
+End ContextDriver.
+
+Section AlphaDriver.
+Variables isalpha isupper : N -> bool.
+Variable lower_c : N -> str.
+Variable mwparse : str -> option (bool * list str).
+
+Theorem py_alpha_detection_eq (sl : list section) :
+  py_alpha_detection isalpha isupper lower_c mwparse sl =
+  match drive_all (detect_alpha isalpha isupper lower_c true mwparse) false sl with
+  | None => None
+  | Some (out, fs) => Some (out, flat_map fst fs, flat_map snd fs)
+  end.
+Proof.
+  unfold py_alpha_detection, drive_all. cbv zeta.
+  match goal with |- context [while_ _ _ ?c ?b] => set (wcond := c); set (wbody := b) end.
+  pose proof (driver_sim (list str * list str) (list str * list str) _ _ Empty_set
+                (detect_alpha isalpha isupper lower_c true mwparse) false
+                (fun acc f => (fst acc ++ fst f, snd acc ++ snd f))
+                (fun '(section_list, alpha_list, mask_list, index) => (section_list, (alpha_list, mask_list), index))
+                wcond wbody) as H.
+  match type of H with ?A -> ?B -> _ => assert (Hc : A); [|assert (Hb : B)] end.
+  { unfold wcond. intros [[[sl0 al] ml] idx] ? ? ? E. injection E as E1 E2 E3. subst. reflexivity. }
+  { unfold wbody. intros [[[sl0 al] ml] idx] done x rest acc Hg. cbn in Hg. injection Hg as E1 E2 E3. subst sl0 acc idx.
+    unfold goes_on. cbv beta iota zeta. unfold sub_l. rewrite !lget_mid.
+    destruct x as [s [l|]]; cbn [snd fst is_none bind]; [goes_on_now|].
+    pose proof (py_detect_alpha_eq isalpha isupper lower_c mwparse (s, None)) as E. cbn [fst] in E. rewrite <- E. clear E.
+    destruct (py_detect_alpha isalpha isupper lower_c mwparse (s, None)) as [[[pvv [[|w ws]|]] ms]|];
+      cbn [dres_alpha nonempty call truthy]; [goes_on_now| |goes_on_now|reflexivity].
+    destruct ms as [m|]; cbn [call]; [|destruct pvv; reflexivity].
+    rewrite ldel_mid. destruct pvv; cbn [call pv_list bind]; [reflexivity|]. rewrite lins_mid. goes_on_now. }
+  specialize (H Hc Hb (drive_fuel sl) sl [] (sl, [], [], 0) ([], []) eq_refl).
+  destruct (drive (detect_alpha isalpha isupper lower_c true mwparse) false (drive_fuel sl) sl) as [[out fs]|].
+  - destruct H as (st' & i & -> & Hg). destruct st' as [[[sl' al] ml] idx]. rewrite fold_extend2 in Hg.
+    injection Hg as -> -> -> _. reflexivity.
+  - now rewrite H.
+Qed.
+
+End AlphaDriver.
+
+(* ------------------------------------------------------------------ *)
+(* other_detection                                                     *)
+(* ------------------------------------------------------------------ *)
+
+Lemma other_detection_app (a b : list section) :
+  other_detection (a ++ b) = (fst (other_detection a) ++ fst (other_detection b),
+                              snd (other_detection a) ++ snd (other_detection b)).
+Proof. unfold other_detection. cbn [fst snd]. now rewrite map_app, filter_app, map_app. Qed.
+
+Lemma other_detection_cons (x : section) (l : list section) :
+  other_detection (x :: l) = (fst (other_detection [x]) ++ fst (other_detection l),
+                              snd (other_detection [x]) ++ snd (other_detection l)).
+Proof. exact (other_detection_app [x] l). Qed.
+
+Theorem py_other_detection_eq (sl : list section) :
+  py_other_detection sl = Some (other_detection sl).
+Proof.
+  unfold py_other_detection. cbv zeta.
+  match goal with |- context [while_ _ _ ?c ?b] => set (wcond := c); set (wbody := b) end.
+  assert (W : forall todo done others,
+    while_ (L' := Empty_set) (length todo) (fst (other_detection done) ++ todo, others, llen done) wcond wbody =
+    Next (fst (other_detection (done ++ todo)), others ++ snd (other_detection todo), llen done + llen todo)).
+  { induction todo as [|x todo IH]; intros done others;
+      assert (Hl : llen done = llen (fst (other_detection done)))
+        by (unfold other_detection, llen; cbn [fst]; now rewrite map_length).
+    - cbn [length while_]. unfold wcond. rewrite !app_nil_r.
+      replace (llen done <? llen (fst (other_detection done))) with false.
+      + change (llen (@nil section)) with 0. now rewrite Z.add_0_r.
+      + symmetry. apply Z.ltb_ge. rewrite <- Hl. apply Z.le_refl.
+    - cbn [length while_]. unfold wcond at 1. rewrite Hl at 1. rewrite index_in_range. cbn [nonempty].
+      unfold wbody at 1. cbv beta iota zeta. unfold sub_l. rewrite Hl. rewrite !lget_mid.
+      destruct x as [s [l|]]; cbn [snd fst is_none bind].
+      + specialize (IH (done ++ [(s, Some l)]) others).
+        rewrite other_detection_app in IH.
+        change (other_detection [(s, Some l)]) with ([(s, Some l)], @nil str) in IH. cbn [fst snd] in IH.
+        rewrite <- !app_assoc in IH. cbn [app] in IH. rewrite llen_app in IH. change (llen [(s, Some l)]) with 1 in IH.
+        rewrite <- Hl. rewrite IH.
+        rewrite (other_detection_cons (s, Some l) todo), llen_cons.
+        change (other_detection [(s, Some l)]) with ([(s, Some l)], @nil str). cbn [fst snd app].
+        do 2 f_equal. lia.
+      + rewrite lset_mid. cbn [call]. rewrite lget_mid. cbn [fst append bind].
+        specialize (IH (done ++ [(s, None)]) (others ++ [s])).
+        rewrite other_detection_app in IH.
+        change (other_detection [(s, None)]) with ([(s, Some (LO (len s)))], [s]) in IH. cbn [fst snd] in IH.
+        rewrite <- !app_assoc in IH. cbn [app] in IH. rewrite llen_app in IH. change (llen [(s, None)]) with 1 in IH.
+        rewrite <- Hl. unfold append. rewrite IH.
+        rewrite (other_detection_cons (s, None) todo), llen_cons.
+        change (other_detection [(s, None)]) with ([(s, Some (LO (len s)))], [s]). cbn [fst snd app].
+        do 2 f_equal. lia. }
+  pose proof (W sl [] []) as Hi. change (fst (other_detection [])) with (@nil section) in Hi.
+  change (llen (@nil section)) with 0 in Hi. cbn [app] in Hi. rewrite Hi. cbn [bind run]. now destruct (other_detection sl).
+Qed.
+
+(* ------------------------------------------------------------------ *)
+(* PCFGPasswordParser.parse: the detectors in the order of the source   *)
+(* ------------------------------------------------------------------ *)
+
+(* after other_detection every section is labelled: base_structure_creation does not raise *)
+Lemma base_structure_after_other (sl : list section) :
+  exists r, base_structure (fst (other_detection sl)) = Some r.
+Proof.
+  unfold other_detection. cbn [fst].
+  induction sl as [|[s [l|]] sl (r & IH)]; cbn [map snd fst base_structure]; [now eexists| |]; rewrite IH;
+    destruct r; now eexists.
+Qed.
+
+Section ParseOrder.
+Variables isalpha isdigit isupper : N -> bool.
+Variable lower_c : N -> str.
+Variable kbs : list board.
+Variable fp_words : list str.
+Variable min_run : Z.
+Variable tlds : list str.
+Variables mw_threshold mw_min_len mw_max_len : Z.
+
+(* the detectors that are not translated, as the model has them: their effect on the section list *)
+Definition model_keyboard_walk (pw : str) : option (list section) :=
+  option_map fst (detect_keyboard_walk isalpha isdigit lower_c kbs fp_words min_run (length pw) pw).
+Definition model_email_detection (sl : list section) : option (list section) :=
+  option_map fst (drive_all (detect_email lower_c true tlds) false sl).
+Definition model_website_detection (sl : list section) : option (list section) :=
+  option_map fst (drive_all (detect_website isalpha lower_c true tlds) false sl).
+
+(* what the generated parse returns, for a result of the model: the section list
+   given to base_structure_creation and what is fed to count_years,
+   count_context_sensitive, count_alpha, count_alpha_masks, count_digits, count_other *)
+Definition parse_view (r : presult) : option (list section * list str * list str * list str * list str * list str * list str) :=
+  match r with
+  | PErr => None
+  | POk r => Some (p_sections r, p_years r, p_context r, p_alpha r, p_masks r, p_digits r, p_other r)
+  end.
+
+Theorem py_parse_eq (m : mwmap) (pw : str) :
+  py_parse isalpha isdigit isupper lower_c (mwparse lower_c mw_threshold mw_min_len mw_max_len m)
+           model_keyboard_walk model_email_detection model_website_detection pw =
+  parse_view (parse isalpha isdigit isupper lower_c true kbs fp_words min_run tlds year_prefixes context_strings
+                    mw_threshold mw_min_len mw_max_len m pw).
+Proof.
+  unfold py_parse, parse, model_keyboard_walk, model_email_detection, model_website_detection.
+  destruct (detect_keyboard_walk isalpha isdigit lower_c kbs fp_words min_run (length pw) pw) as [[sl0 walks]|];
+    cbn [option_map call fst run]; [|reflexivity].
+  destruct (drive_all (detect_email lower_c true tlds) false sl0) as [[sl1 emails]|];
+    cbn [option_map call fst run]; [|reflexivity].
+  destruct (drive_all (detect_website isalpha lower_c true tlds) false sl1) as [[sl2 webs]|];
+    cbn [option_map call fst run]; [|reflexivity].
+  rewrite py_year_detection_eq.
+  destruct (drive_all (detect_year isdigit year_prefixes) true sl2) as [[sl3 years]|]; cbn [call run]; [|reflexivity].
+  rewrite py_context_sensitive_detection_eq.
+  destruct (drive_all (detect_context isdigit context_strings) true sl3) as [[sl4 ctx]|]; cbn [call run]; [|reflexivity].
+  rewrite py_alpha_detection_eq. fold (mwparse lower_c mw_threshold mw_min_len mw_max_len m).
+  destruct (drive_all (detect_alpha isalpha isupper lower_c true (mwparse lower_c mw_threshold mw_min_len mw_max_len m)) false sl4)
+    as [[sl5 alphas]|]; cbn [call run]; [|reflexivity].
+  rewrite py_digit_detection_eq.
+  destruct (drive_all (detect_digits isdigit) false sl5) as [[sl6 digits]|]; cbn [call run]; [|reflexivity].
+  rewrite py_other_detection_eq. cbn [call run].
+  destruct (base_structure_after_other sl6) as ([sup base] & E).
+  destruct (other_detection sl6) as [sl7 others]. cbn [fst] in E. rewrite E. reflexivity.
+Qed.
+
+End ParseOrder.
